@@ -268,6 +268,12 @@ class Interp(Engine):
             return self.set_has(st, cont, self.coerce_key(st, x, k.elem, node))
         if isinstance(k, KTuple):
             return z3.Or([self.eq(st, it, x, node) for it in self.tuple_items(cont)] or [z3.BoolVal(False)])
+        if k is KVal:
+            # membership in a dynamic value: supported for dict-like values (key lookup)
+            d = self.coerce(st, cont, KDict(KStr, KVal), node)
+            return self.dict_has(st, d, self.coerce_key(st, x, KStr, node))
+        if k is KConst and isinstance(cont.const, EmptyLit):
+            return z3.BoolVal(False)
         if isinstance(k, KList):
             i = st.fresh("mi", z3.IntSort())
             n = self.list_len(st, cont)
@@ -850,7 +856,8 @@ class Interp(Engine):
         # contracts' invariants do not hold in the middle of the caller)
         if (c is not None and not c.inline and not self.spec_mode and top is not None and top.fi is not None
                 and top.fi.cls is not None and fi.cls is not None and issubclass(top.fi.cls, fi.cls)
-                and args and args[0] is top.env.get("self") and self.inlinable(fi) and not c.no_self_inline):
+                and args and args[0] is top.env.get("self") and self.inlinable(fi) and not c.no_self_inline
+                and not c.trusted):
             return self.inline_call(st, fi, args, kwargs, node, None)
         if c is not None and not c.inline and not self.spec_mode:
             return self.apply_contract(st, fi, c, args, kwargs, node)
